@@ -256,6 +256,7 @@ def run(prog, ctx):
     check_knot_spacing(prog, ctx)
     check_quadrature_nodes_not_modified(prog, ctx)
     check_integral_of_the_function_itself(prog, ctx)
+    check_float_value_buffer(prog, ctx)
 
     # ------------------------------------------------------------------ D5 / D6
     check_bspline_derivatives(prog, ctx)
@@ -601,3 +602,78 @@ def check_integral_of_the_function_itself(prog, ctx, rule="C10.D10"):
                   "just `return self.%s(x)`: the integral belongs to a different function than the one the class evaluates"
                   % (ci.name, gi.qual, bad[0][1] if bad else "", call.cls.name, bad[0][1] if bad else ""))
     ctx.floor(rule, n, 4, "basis classes whose get_integral evaluates the function at quadrature nodes")
+
+
+FLOAT_ALLOCATORS = {"empty", "zeros", "ones", "full"}
+FLOAT_NAMES = {"float", "float64", "float32", "double", "longdouble", "float_", "complex", "complex128"}
+
+
+def _is_float_dtype(e):
+    if isinstance(e, ast.Name):
+        return e.id in FLOAT_NAMES
+    if isinstance(e, ast.Attribute):
+        return e.attr in FLOAT_NAMES
+    if isinstance(e, ast.Constant) and isinstance(e.value, str):
+        return e.value.lstrip("<>=").startswith(("f", "d", "c", "float", "double", "complex"))
+    return False
+
+
+def _float_array_expr(fi, e, depth=0):
+    """the expression certainly evaluates to a floating-point array: np.empty/zeros/ones/full without an integer dtype, np.array /
+    asarray(..., dtype=float), x.astype(float), or a transpose / reshape / name bound to one of those"""
+    if e is None or depth > 4:
+        return False
+    if isinstance(e, ast.Name):
+        b = R.reaching_unique_def(fi, e.id, e)
+        return b is not None and b.kind == "assign" and _float_array_expr(fi, b.value, depth + 1)
+    if isinstance(e, ast.Attribute) and e.attr == "T":
+        return _float_array_expr(fi, e.value, depth + 1)
+    if isinstance(e, ast.Call):
+        f_ = e.func
+        nm = f_.attr if isinstance(f_, ast.Attribute) else (f_.id if isinstance(f_, ast.Name) else None)
+        kw = {k.arg: k.value for k in e.keywords}
+        if nm in FLOAT_ALLOCATORS:
+            return "dtype" not in kw or _is_float_dtype(kw["dtype"])
+        if nm in ("array", "asarray", "asanyarray", "ascontiguousarray", "fromiter"):
+            return "dtype" in kw and _is_float_dtype(kw["dtype"])
+        if nm == "astype":
+            return bool(e.args) and _is_float_dtype(e.args[0])
+        if nm in ("reshape", "transpose", "copy", "swapaxes", "ravel") and isinstance(f_, ast.Attribute) and \
+                not (isinstance(f_.value, ast.Name) and f_.value.id in ("np", "numpy")):
+            return _float_array_expr(fi, f_.value, depth + 1)
+        if nm in ("reshape", "transpose", "copy", "swapaxes", "ravel") and e.args:
+            return _float_array_expr(fi, e.args[0], depth + 1)
+    return False
+
+
+def check_float_value_buffer(prog, ctx):
+    """C10.D11: the hierarchisation overwrites the nodal values with the surpluses IN the buffer it is given (element stores into
+    grid_values).  The buffer must therefore be a floating-point array whatever the function returns: allocated by np.empty / zeros
+    (float by default) or converted with an explicit float dtype.  `np.array([f(p) for p in points])` inherits the dtype of the
+    function values; for an integer-valued function (labels, indicators, counts) every surplus is truncated when it is stored."""
+    hz = prog.func("Hierarchization.HierarchizationLSG.hierarchize_poles_for_dim")
+    buf = hz.params[1]
+    inplace = [st for st in walk_local(hz.node) if isinstance(st, (ast.Assign, ast.AugAssign))
+               and any(isinstance(t, ast.Subscript) and isinstance(t.value, ast.Name) and t.value.id == buf
+                       for t in (st.targets if isinstance(st, ast.Assign) else [st.target]))]
+    if not inplace:
+        ctx.ok("C10.D11", R.key_of(hz, "buffer-overwritten-in-place"), hz.loc(),
+               "the hierarchisation no longer writes into the buffer it receives: nothing to demand from the callers")
+        return
+    n = 0
+    for fi in prog.functions.values():
+        if fi.cls is None or fi.module.name not in ("Integrator", "Grid", "GridOperation"):
+            continue
+        for call in R.calls_in(fi.node):
+            f_ = call.func
+            if not (isinstance(f_, ast.Attribute) and f_.attr == "hierarchization" and R.self_attr(f_, fi.self_name) == "hierarchization" and call.args):
+                continue
+            n += 1
+            ctx.touch(fi)
+            ok = _float_array_expr(fi, call.args[0])
+            ctx.check(ok, "C10.D11", R.key_of(fi, "float-value-buffer"), fi.loc(call),
+                      "the buffer handed to the hierarchisation is a floating-point array by construction",
+                      "the buffer `%s` handed to the hierarchisation is not a floating-point array by construction (it takes the dtype of the "
+                      "function values): the hierarchisation stores the surpluses into it in place (%s, line %d), for an integer-valued "
+                      "function they are truncated" % (src(call.args[0])[:60], src(inplace[0])[:50], inplace[0].lineno))
+    ctx.floor("C10.D11", n, 1, "calls of the hierarchisation operator")
